@@ -7,14 +7,18 @@
        request_id, limits                (transparent for the response)
        log        (ResponseRecorder, recover -> 500, fallback ErrorFunc at >= 400) log/log.go
        rewrite                           (changes the path the inner directives see)
-       gzip       (ResponseFilterWriter/gzipResponseWriter, DefaultErrorFunc on the RAW
-                   writer at >= 400, deferred Close of the pooled gzip.Writer) gzip/gzip.go
-       header     (deferred deletes, WriteHeader de-duplicated)             header/header.go
-       errors     (error pages, `visible` debug branch, recover)            errors/errors.go
+       gzip       (ResponseFilterWriter/gzipResponseWriter, header before Flush,
+                   DefaultErrorFunc on the RAW writer at >= 400, deferred Close of the
+                   pooled gzip.Writer)                                       gzip/gzip.go
+       header     (deferred deletes, WriteHeader de-duplicated, header before Flush)
+                                                                             header/header.go
+       errors     (error pages, `visible` debug branch at >= 400, recover)  errors/errors.go
        status     (short-circuits the inner handlers)                       status/status.go
        mime                              (transparent: sets a header)
-       templates  (ResponseBuffer, `code >= 300 || err` early return that passes a buffered
-                   response on unless code >= 400, http.ServeContent with the buffered status) templates/templates.go
+       templates  (ResponseBuffer: header before Flush, no Flush while buffering;
+                   `code >= 300 || err` early return that passes a buffered response on
+                   unless code >= 400; http.ServeContent with the buffered status)
+                                                                     templates/templates.go
        innermost handler = script over {Header().Set, WriteHeader, Write, Flush, panic}
                            followed by `return status, err`.
 
@@ -263,6 +267,10 @@ Definition h_wh (s : Z) (x : st) : out :=
 Definition h_wr (b : bytes) (x : st) : out :=
   if h_on x then bnd (if h_wrote x then Done x else h_wh 200 x) (g_wr b) else g_wr b x.
 
+(* responseWriterWrapper.Flush: the header (with the deferred deletes) first *)
+Definition h_fl (x : st) : out :=
+  if h_on x then bnd (if h_wrote x then Done x else h_wh 200 x) g_fl else g_fl x.
+
 (* ---------- level 4: templates' ResponseBuffer ---------- *)
 Definition b_active (x : st) : bool := match b_mode x with TOff => false | _ => true end.
 Definition should_buffer (m : tmode) (h : headers) : bool :=
@@ -289,10 +297,13 @@ Definition b_sethdr (k v : bytes) (x : st) : st :=
   if b_active x then set_b x (b_mode x) (b_wrote x) (b_stream x) (b_status x) (hset (b_hdr x) k v) (b_buf x)
   else set_chdr x (hset (chdr x) k v).
 
-(* ResponseBuffer.Flush: nothing is sent while the response is being buffered. Otherwise the
-   wrappers (ResponseBuffer, header's wrapper) only forward Flush. *)
+(* ResponseBuffer.Flush: the header first (which decides about buffering); nothing is sent
+   while the response is being buffered *)
 Definition b_fl (x : st) : out :=
-  if b_active x && b_wrote x && negb (b_stream x) then Done x else g_fl x.
+  if b_active x then
+    bnd (if b_wrote x then Done x else b_wh 200 x)
+        (fun x1 => if b_stream x1 then h_fl x1 else Done x1)
+  else h_fl x.
 
 (* ---------- the innermost handler ---------- *)
 Inductive op := OSet (k v : bytes) | OWh (s : Z) | OWr (b : bytes) | OFl | OPanic.
@@ -626,7 +637,6 @@ Definition spec (errtext : Z -> bytes) (c : cfg) (path : bytes) (ops : list op) 
     else if (400 <=? ret) && (ret <=? 999) then
       (o_status o =? ret) && negb (o_garbled o) && Nat.eqb (o_sup o) 0 &&
       beq (o_view o) (expected_error_body errtext c path ret err)
-    else if (ret <? 200) && err then true   (* contract broken: "already written" (0) with an error, nothing written *)
     else Nat.eqb (o_sup o) 0 && negb (o_garbled o)
   end.
 
